@@ -243,14 +243,18 @@ func newKeygen(n, t, si int, checkPk []int) *keygen {
 	for i := range xs {
 		xs[i] = i + 1
 	}
-	for j := t + 1; j < n; j++ {
+	var dmu sync.Mutex
+	ev.Par(n-t-1, func(q int) {
+		j := t + 1 + q
 		if interpAt(xs, k.sk[:t+1], j+1).Cmp(k.sk[j]) != 0 {
 			run.Violation("keygen:share-not-on-degree-t-polynomial",
 				fmt.Sprintf("n=%d t=%d: private share %d is not the image of the degree<=t polynomial through shares 0..t", n, t, j), k.rep("keygen", ""))
+			dmu.Lock()
 			k.bad = true
+			dmu.Unlock()
 		}
 		run.Add("evaluations", 1)
-	}
+	})
 	// (2) one a0 from every (t+1)-subset of the first t+3 shares
 	first := t + 3
 	if first > n {
@@ -260,7 +264,12 @@ func newKeygen(n, t, si int, checkPk []int) *keygen {
 	for i := range pool {
 		pool[i] = i
 	}
-	for _, sub := range combos(pool, t+1) {
+	subs := combos(pool, t+1)
+	if t > 20 && len(subs) > 6 {
+		// large thresholds: (1) already ties every share to one polynomial; a few subsets fix a0
+		subs = append(subs[:3:3], subs[len(subs)-3:]...)
+	}
+	for _, sub := range subs {
 		idx := make([]int, len(sub))
 		for i, s := range sub {
 			idx[i] = s + 1
@@ -1358,6 +1367,7 @@ func main() {
 	}
 	fmt.Printf("C06 (b) done at %.1fs: %d index lists\n", elapsed(), len(bcases))
 
+	longShareLists()
 	run.Set("outcome_histogram", outcomes)
 	// (f) the stateful object under CONCURRENT submission of distinct valid shares (cmd/c06s, scheduler variant)
 	run.SchedPart("C06_SCHED_BIN", "stateful_concurrent_submission",
@@ -1384,4 +1394,126 @@ func famClass(name string) string {
 		return name[:i]
 	}
 	return name
+}
+
+
+// longShareLists (part g): t+1 around 64 / 128 / 254 shares. The C layer sums t+1 scalar multiples with
+// a multi-scalar routine whose algorithm (and scratch memory) changes with the number of points (BLST
+// switches to Pippenger buckets above 64 points); every other part stays below 13 shares.
+// Sequential: first / last / reversed / rotated / every-other index sets through the three paths.
+// AUXILIARY (sampling, not the deciding step): the same reconstructions from 8 free-running goroutines at
+// once - calls into C are single atomic steps for the cooperative scheduler of part (f), so state shared
+// between concurrent C calls (a static scratch buffer) is invisible to it; results are compared with the
+// sequential ones, which makes a report a definite wrong answer, never a timing artefact.
+func longShareLists() {
+	cfgs := [][2]int{{70, 62}, {70, 63}, {70, 64}, {70, 65}, {254, 127}, {254, 128}}
+	if run.Thorough() {
+		cfgs = append(cfgs, [2]int{254, 253}, [2]int{254, 191}, [2]int{130, 129}, [2]int{100, 64})
+	}
+	run.Set("long_share_lists", cfgs)
+	type pc struct {
+		c      *context
+		orders [][]int
+	}
+	var pcs []pc
+	a := newAcc()
+	for _, nt := range cfgs {
+		n, t := nt[0], nt[1]
+		k := newKeygen(n, t, 0, []int{0, n - 1})
+		if k.bad {
+			continue
+		}
+		all := make([]int, n)
+		for i := range all {
+			all[i] = i
+		}
+		fmt.Printf("C06 (g) keygen n=%d t=%d at %.1fs\n", n, t, elapsed())
+		c := newContext(k, 0, all, false)
+		fmt.Printf("C06 (g) context n=%d t=%d at %.1fs\n", n, t, elapsed())
+		first, last := all[:t+1], all[n-t-1:]
+		orders := [][]int{append([]int{}, first...), append([]int{}, last...), reversed(first), rotated(last, 7)}
+		if 2*(t+1) <= n {
+			var eo []int
+			for i := 0; i < t+1; i++ {
+				eo = append(eo, 2*i)
+			}
+			orders = append(orders, eo)
+		}
+		// more than t+1 shares: all n
+		orders = append(orders, append([]int{}, all...))
+		pcs = append(pcs, pc{c, orders})
+	}
+	type job struct {
+		c *context
+		o []int
+	}
+	var jobs []job
+	for _, x := range pcs {
+		for _, o := range x.orders {
+			jobs = append(jobs, job{x.c, o})
+		}
+	}
+	var amu sync.Mutex
+	ev.Par(len(jobs), func(i int) {
+		la := newAcc()
+		validCase(jobs[i].c, "g", jobs[i].o, la, 3)
+		amu.Lock()
+		a.evals += la.evals
+		for k, v := range la.outcomes {
+			a.outcomes[k] += v
+		}
+		amu.Unlock()
+	})
+	a.flush()
+	fmt.Printf("C06 (g) sequential done at %.1fs\n", elapsed())
+	// auxiliary free-running pass
+	const G, K = 8, 4
+	var calls, wrong int64
+	for _, x := range pcs {
+		c := x.c
+		n, t := c.k.n, c.k.t
+		var wg sync.WaitGroup
+		var mu sync.Mutex
+		for g := 0; g < G; g++ {
+			wg.Add(1)
+			go func(g int) {
+				defer wg.Done()
+				all := make([]int, n)
+				for i := range all {
+					all[i] = i
+				}
+				order := rotated(all, g*5)[:t+1]
+				list := make([][]byte, len(order))
+				for p, i := range order {
+					list[p] = c.shares[i]
+				}
+				for it := 0; it < K; it++ {
+					got, err := stateless(n, t, list, order)
+					ins := c.inspector()
+					for p, i := range order {
+						_, _ = ins.TrustedAdd(i, list[p])
+					}
+					got2, err2 := ins.ThresholdSignature()
+					mu.Lock()
+					calls += 2
+					if err != nil || !bytes.Equal(got, c.expected) {
+						wrong++
+						run.Violation("aux-parallel:stateless:valid-shares:wrong-result", fmt.Sprintf("n=%d t=%d: BLSReconstructThresholdSignature running in %d goroutines at once returned (%x,%v); alone it returns the group signature", n, t, G, got, err),
+							c.rep("g-aux", "stateless, 8 goroutines", order, nil, got, "auxiliary free-running pass"))
+					}
+					if err2 != nil || !bytes.Equal(got2, c.expected) {
+						wrong++
+						run.Violation("aux-parallel:stateful:valid-shares:wrong-result", fmt.Sprintf("n=%d t=%d: ThresholdSignature() of separate objects running in %d goroutines at once returned (%x,%v); alone it returns the group signature", n, t, G, got2, err2),
+							c.rep("g-aux", "TrustedAdd, 8 goroutines", order, nil, got2, "auxiliary free-running pass"))
+					}
+					mu.Unlock()
+				}
+			}(g)
+		}
+		wg.Wait()
+	}
+	fmt.Printf("C06 (g) auxiliary pass done at %.1fs\n", elapsed())
+	run.Add("evaluations", calls)
+	run.Set("aux_parallel_reconstruction", map[string]any{"goroutines": G, "iterations": K, "calls": calls, "wrong": wrong,
+		"note": "auxiliary assumption discharge (sampling): concurrent calls into the C layer, which the scheduler part treats as atomic steps; not the deciding step"})
 }
